@@ -56,7 +56,12 @@ struct KVarString : Kind {
   void* copy(void* s) override { return new Variant(*(Variant*)s); }
   void destroy(void* h) override { delete (Variant*)h; }
   void assign(void* d, void* s) override { *(Variant*)d = *(Variant*)s; }
-  void modify(void* h, int tid, int, std::string& m) override { char c = (char)('a' + tid); ((Variant*)h)->toString().append(c); m += c; }
+  void modify(void* h, int tid, int n, std::string& m) override {
+    // one modification in six changes the type through another mutable accessor (the string payload has to be given up), the next
+    // toString() changes it back to an (empty) string
+    switch (((n % 6) + 6) % 6) { case 3: ((Variant*)h)->toList(); m.clear(); return; case 4: ((Variant*)h)->toMap(); m.clear(); return; case 5: ((Variant*)h)->toArray(); m.clear(); return; default: break; }
+    char c = (char)('a' + tid); ((Variant*)h)->toString().append(c); m += c;
+  }
   std::string read(void* h) override { String s = ((const Variant*)h)->toString(); return std::string((const char*)s, s.length()); }
   void clear(void* h, std::string& m) override { ((Variant*)h)->clear(); m.clear(); }
   std::string initial(int p) override { return payloadText(p); }
